@@ -116,7 +116,13 @@ class _Gen:
                 self.features.add("tile-down")
             return ("  %s; @tile(%s, @outer, @inner)) {\n" % (head, tsize)) + body + "  }\n"
         if form == "up":
-            out += "  for (int o = 0; o < n; o += %d; @outer) {\n" % I
+            start = 0
+            if r.random() < 0.25:
+                # a loop that does not start at 0: for small n the sequential loop is empty (and its trip count
+                # formula negative)
+                start = r.choice([8, 16])
+                self.features.add("outer-start-nonzero")
+            out += "  for (int o = %d; o < n; o += %d; @outer) {\n" % (start, I)
             base = "o"
         elif form == "le":
             out += "  for (int o = 0; o <= n - %d; o += %d; @outer) {\n" % (I, I)
